@@ -45,6 +45,7 @@ pub fn def_c24() -> PropDef {
 
 pub fn profile_c03() -> Profile {
     Profile {
+        text_conflict_prologue_permille: 120,
         replicas: (1, 3),
         events: (15, 130),
         confused_permille: 200,
@@ -62,6 +63,7 @@ pub fn profile_c03() -> Profile {
 
 pub fn profile_c24() -> Profile {
     Profile {
+        text_conflict_prologue_permille: 120,
         replicas: (1, 3),
         events: (15, 140),
         w_merge: 5,
@@ -393,6 +395,16 @@ fn model(tree: &mut Tree, call: &Call, present: bool, enc: Enc, stats: &mut Stat
             if t.widths.iter().any(|w| *w != 1) {
                 stats.bump("probe.splice_multiunit_text");
             }
+            if t.elems.iter().any(|r| r.conflict()) {
+                stats.bump("probe.splice_on_text_with_conflicted_element");
+            }
+            // deleted range holds an element whose concurrent values differ in width (winner vs loser)
+            if t.elems[a..b].iter().any(|r| {
+                let ws: Vec<usize> = r.vals.iter().map(|(_, v)| match v { Val::Scalar(Sv::Str(s)) => enc.width(s), _ => enc.width(PLACEHOLDER) }).collect();
+                ws.iter().any(|x| *x != ws[0])
+            }) {
+                stats.bump("probe.splice_del_over_width_conflict");
+            }
             t.elems.drain(a..b);
             t.marks.drain(a..b);
             for (j, u) in split_units(text, enc).into_iter().enumerate() {
@@ -456,6 +468,13 @@ fn model(tree: &mut Tree, call: &Call, present: bool, enc: Enc, stats: &mut Stat
             Expect::Unmodelled
         }
         (Call::UpdateText { .. }, _) => Expect::MustErr("wrong-object-kind"),
+        (Call::Put { .. }, Tree::Text(t)) => {
+            stats.bump("probe.put_on_text");
+            if t.elems.iter().any(|r| r.conflict()) {
+                stats.bump("probe.put_on_text_with_conflicted_element");
+            }
+            Expect::Unmodelled
+        }
         _ => Expect::Unmodelled,
     }
 }
